@@ -332,11 +332,27 @@ example : (cutBalanced (α := Nat) [⟨0, 1, 1, 2⟩, ⟨2, 3, 2, 2⟩, ⟨4, 5,
 section straight
 variable [LinearOrder α]
 
+omit [LinearOrder α] in
+/-- the test of the repaired `cut_straight` is the predicate of the specification -/
+theorem noInversion_eq [LT α] [DecidableLT α] (n : Nat) (D : Dendro α) : noInversion n D = MonoPaths n D := rfl
+
+/-- the dendrogram that is cut is the given one, or its reordering — taken only when no merge is lower than a merge
+    it contains -/
+theorem cutInput_cases {D0 D : Dendro α} {retD : Bool} (h : cutInput D0 retD = .ok D) :
+    D = D0 ∨ (MonoPaths (D0.length + 1) D0 = true ∧ reorderDendrogram D0 = .ok D) := by
+  unfold cutInput at h
+  split at h
+  · split at h
+    · rename_i hm
+      exact Or.inr ⟨by rw [← noInversion_eq]; exact hm, h⟩
+    · simp only [pure, Except.pure, Except.ok.injEq] at h; exact Or.inl h.symm
+  · simp only [pure, Except.pure, Except.ok.injEq] at h; exact Or.inl h.symm
+
 theorem cutStraight_unfold {D0 : Dendro α} {nc : Option Nat} {thr : Option α} {srt retD : Bool}
     {argsort : List Nat → List Nat} {out : CutOut α}
     (h : cutStraight D0 nc thr srt retD argsort = .ok out) :
     ∃ D k cut st,
-      (D = D0 ∨ reorderDendrogram D0 = .ok D) ∧
+      (D = D0 ∨ (MonoPaths (D0.length + 1) D0 = true ∧ reorderDendrogram D0 = .ok D)) ∧
       effectiveK (D0.length + 1) nc thr = .ok k ∧
       cutHeight D (D0.length + 1) k thr = .ok cut ∧
       mergeLoop (D0.length + 1) (fun r _ _ => belowCut cut r) 0 D (initCluster (D0.length + 1)) = .ok st ∧
@@ -346,11 +362,7 @@ theorem cutStraight_unfold {D0 : Dendro α} {nc : Option Nat} {thr : Option α} 
   obtain ⟨k, hk, h⟩ := bind_ok h
   obtain ⟨cut, hcut, h⟩ := bind_ok h
   obtain ⟨st, hst, h⟩ := bind_ok h
-  refine ⟨D, k, cut, st, ?_, hk, hcut, hst, h⟩
-  unfold cutInput at hD
-  split at hD
-  · exact Or.inr hD
-  · simp only [pure, Except.pure, Except.ok.injEq] at hD; exact Or.inl hD.symm
+  exact ⟨D, k, cut, st, cutInput_cases hD, hk, hcut, hst, h⟩
 
 omit [LinearOrder α] in
 theorem effectiveK_spec {n : Nat} {nc : Option Nat} {thr : Option α} {k : Nat}
@@ -382,7 +394,8 @@ theorem cutStraight_subtrees_count {D0 : Dendro α} {nc : Option Nat} {thr : Opt
     (h : cutStraight D0 nc thr srt retD argsort = .ok out) :
     ∃ D, (D = D0 ∨ reorderDendrogram D0 = .ok D) ∧
       ∃ cl, SubtreeLabelling (D0.length + 1) D out.labels srt cl ∧ (thr = none → nc.getD 2 ≤ cl.length) := by
-  obtain ⟨D, k, cut, st, hD, hk, hcut, hloop, hlab⟩ := cutStraight_unfold h
+  obtain ⟨D, k, cut, st, hD0, hk, hcut, hloop, hlab⟩ := cutStraight_unfold h
+  have hD : D = D0 ∨ reorderDendrogram D0 = .ok D := hD0.imp id And.right
   have hlen : D.length = D0.length := by
     rcases hD with e | e
     · rw [e]
@@ -459,7 +472,8 @@ theorem cutStraight_exact {D0 : Dendro α} {nc : Option Nat} {thr : Option α} {
             ∀ v ∈ leaves (D0.length + 1) D (D0.length + 1 + t),
             ∀ w ∈ leaves (D0.length + 1) D (D0.length + 1 + t), out.labels.getD v 0 = out.labels.getD w 0) ∧
           (thr = none → DistinctHeights D = true → cl.length = nc.getD 2)) := by
-  obtain ⟨D, k, cut, st, hD, hk, hcut, hloop, hlab⟩ := cutStraight_unfold h
+  obtain ⟨D, k, cut, st, hD0, hk, hcut, hloop, hlab⟩ := cutStraight_unfold h
+  have hD : D = D0 ∨ reorderDendrogram D0 = .ok D := hD0.imp id And.right
   have hlen : D.length = D0.length := by
     rcases hD with e | e
     · rw [e]
@@ -541,16 +555,15 @@ example : ValidDendro 4 ([⟨0, 1, 1, 2⟩, ⟨2, 3, 2, 2⟩, ⟨4, 5, 3, 4⟩] 
     MonoPaths 4 ([⟨0, 1, 1, 2⟩, ⟨2, 3, 2, 2⟩, ⟨4, 5, 3, 4⟩] : Dendro Nat) = true ∧
     DistinctHeights ([⟨0, 1, 1, 2⟩, ⟨2, 3, 2, 2⟩, ⟨4, 5, 3, 4⟩] : Dendro Nat) = true := by decide
 
-/-- **The statement of C08 is false for `cut_straight` on valid dendrograms with an inversion** (F24, a known
-    finding of the code, mirrored by the model): `D = [[0,1,5,2],[2,3,1,3]]` is a valid dendrogram over 3 leaves with
+/-- **Two clauses of C08 are false for `cut_straight` on valid dendrograms with an inversion** (known findings F24b,
+    F24c of the code, mirrored by the model): `D = [[0,1,5,2],[2,3,1,3]]` is a valid dendrogram over 3 leaves with
     pairwise distinct heights whose root (height 1) is lower than its child (height 5); on it
     * `cut_straight(D, n_clusters=2)` returns 3 clusters (not exactly `n_clusters` although heights are distinct),
-    * `cut_straight(D, threshold=2)` leaves the merge of height 1 < 2 unapplied (its leaves 0, 1, 2 get 3 labels),
-    * `cut_straight(D, 2, return_dendrogram=True)` raises `KeyError` (the reordering by height puts the parent row
-      before the row that creates its child).
-    Hence `MonoPaths` in the hypotheses of `cutStraight_exact`, `cutStraight_valid_input`, `cutStraight_dendro_valid`
-    is necessary; the executable specification `straightSpec` states the clauses without it and the check reports
-    such inputs as the known finding. -/
+    * `cut_straight(D, threshold=2)` leaves the merge of height 1 < 2 unapplied (its leaves 0, 1, 2 get 3 labels).
+    Hence `MonoPaths` in the hypotheses of `cutStraight_exact` and `cutStraight_valid_input` is necessary; the
+    executable specification `straightSpec` states the clauses without it and the check reports such inputs as the
+    known findings.  (`return_dendrogram=True` raised KeyError on this tree — F24a, repaired: the function returns,
+    last conjunct, with the labels and the dendrogram of the un-reordered tree.) -/
 theorem cutStraight_inversion_counterexample :
     ValidDendro 3 ([⟨0, 1, 5, 2⟩, ⟨2, 3, 1, 3⟩] : Dendro Nat) = true ∧
     DistinctHeights ([⟨0, 1, 5, 2⟩, ⟨2, 3, 1, 3⟩] : Dendro Nat) = true ∧
@@ -559,9 +572,8 @@ theorem cutStraight_inversion_counterexample :
       = some [0, 1, 2] ∧
     (cutStraight (α := Nat) [⟨0, 1, 5, 2⟩, ⟨2, 3, 1, 3⟩] none (some 2) true false argsortDesc).toOption.map (·.labels)
       = some [0, 1, 2] ∧
-    (match cutStraight (α := Nat) [⟨0, 1, 5, 2⟩, ⟨2, 3, 1, 3⟩] (some 2) none true true argsortDesc with
-      | .error e => e == PyErr.keyError
-      | .ok _ => false) = true := by
+    (cutStraight (α := Nat) [⟨0, 1, 5, 2⟩, ⟨2, 3, 1, 3⟩] (some 2) none true true argsortDesc).toOption.map
+      (fun o => (o.labels, o.dendro)) = some ([0, 1, 2], some [⟨0, 1, 5, 2⟩, ⟨2, 3, 1, 3⟩]) := by
   decide
 
 end straight
@@ -801,13 +813,13 @@ theorem cutStraight_valid_input {D0 : Dendro α} {nc : Option Nat} {thr : Option
         simp only [habf, Bool.false_or, hDa, hDb]
         exact h2
 
-/-- **cut_straight with `return_dendrogram=True`** on a valid dendrogram whose heights never decrease towards the
-    root: the dendrogram returned is a valid dendrogram over the returned clusters (as leaves weighted by their
+/-- **cut_straight with `return_dendrogram=True`** on a valid dendrogram (repaired code: a tree with an inversion is
+    not reordered, F24a): the dendrogram returned is a valid dendrogram over the returned clusters (as leaves weighted by their
     sizes, which sum to `n`), and its heights are heights of the dendrogram that was cut (the given one, reordered by
     height if it was not sorted), in the same order. -/
 theorem cutStraight_dendro_valid {D0 : Dendro α} {nc : Option Nat} {thr : Option α} {srt : Bool}
     {argsort : List Nat → List Nat} (hs : SortsDesc argsort) {out : CutOut α}
-    (hv : ValidDendro (D0.length + 1) D0 = true) (hm : MonoPaths (D0.length + 1) D0 = true)
+    (hv : ValidDendro (D0.length + 1) D0 = true)
     (h : cutStraight D0 nc thr srt true argsort = .ok out) :
     ∃ D cl R, (D = D0 ∨ reorderDendrogram D0 = .ok D) ∧
       SubtreeLabelling (D0.length + 1) D out.labels srt cl ∧ out.dendro = some R ∧
@@ -817,13 +829,14 @@ theorem cutStraight_dendro_valid {D0 : Dendro α} {nc : Option Nat} {thr : Optio
       (∀ (u : Nat) (ru : Row α), R[u]? = some ru → ∃ (t : Nat) (rt : Row α), D[t]? = some rt ∧ ru.h = rt.h ∧
         ∀ v, v < D0.length + 1 → (v ∈ leaves (D0.length + 1) D (D0.length + 1 + t) ↔
           out.labels.getD v 0 ∈ leaves cl.length R (cl.length + u))) := by
-  obtain ⟨D, k, cut, st, hD, _, _, hloop, hlab⟩ := cutStraight_unfold h
+  obtain ⟨D, k, cut, st, hD0, _, _, hloop, hlab⟩ := cutStraight_unfold h
+  have hD : D = D0 ∨ reorderDendrogram D0 = .ok D := hD0.imp id And.right
   have hlen : D.length = D0.length := by
     rcases hD with e | e
     · rw [e]
     · exact reorderDendrogram_length e
   have hvD : ValidDendro (D0.length + 1) D = true := by
-    rcases hD with e | e
+    rcases hD0 with e | ⟨hm, e⟩
     · rw [e]; exact hv
     · obtain ⟨D', hD', hvD', _⟩ := reorder_valid_core hv hm
       rw [e] at hD'
@@ -856,14 +869,13 @@ example : (cutStraight (α := Ht) [⟨0, 1, .fin 1, 2⟩, ⟨2, 3, .fin 2, 2⟩,
 
 /-- **cut_straight returns** for every valid dendrogram over `n` leaves when `n_clusters` is given in `1 … n`, or
     omitted with a threshold, or omitted altogether with `n ≥ 2` (the default 2 is not checked against `n`: on the
-    dendrogram of a single leaf `cut_straight(d)` is an IndexError), and — when the reduced dendrogram is asked
-    for — heights never decrease towards the root (necessary: `cutStraight_inversion_counterexample`). -/
+    dendrogram of a single leaf `cut_straight(d)` is an IndexError), with or without the reduced dendrogram
+    (repaired code: a tree with an inversion is cut as it is given, not reordered). -/
 theorem cutStraight_returns {D0 : Dendro α} (nc : Option Nat) (thr : Option α) (srt retD : Bool)
     {argsort : List Nat → List Nat} (hs : SortsDesc argsort) (hv : ValidDendro (D0.length + 1) D0 = true)
     (hk : match nc with
       | some k => 1 ≤ k ∧ k ≤ D0.length + 1
-      | none => thr.isSome = true ∨ 2 ≤ D0.length + 1)
-    (hm : retD = false ∨ MonoPaths (D0.length + 1) D0 = true) :
+      | none => thr.isSome = true ∨ 2 ≤ D0.length + 1) :
     ∃ out, cutStraight D0 nc thr srt retD argsort = .ok out := by
   -- the dendrogram that is cut
   obtain ⟨D, hD, hvD, hlen⟩ : ∃ D, cutInput D0 retD = .ok D ∧ ValidDendro (D0.length + 1) D = true ∧
@@ -871,14 +883,11 @@ theorem cutStraight_returns {D0 : Dendro α} (nc : Option Nat) (thr : Option α)
     unfold cutInput
     by_cases hc : (retD && !heightsSorted D0) = true
     · rw [if_pos hc]
-      have hret : retD = true := by
-        cases retD with
-        | true => rfl
-        | false => simp at hc
-      rcases hm with e | e
-      · rw [e] at hret; cases hret
-      · obtain ⟨D', hD', hvD', _⟩ := reorder_valid_core hv e
+      by_cases hm : noInversion (D0.length + 1) D0 = true
+      · rw [if_pos hm]
+        obtain ⟨D', hD', hvD', _⟩ := reorder_valid_core hv (by rw [← noInversion_eq]; exact hm)
         exact ⟨D', hD', hvD', reorderDendrogram_length hD'⟩
+      · rw [if_neg hm]; exact ⟨D0, rfl, hv, rfl⟩
     · rw [if_neg hc]; exact ⟨D0, rfl, hv, rfl⟩
   -- the number of clusters
   obtain ⟨k, hke, hk1, hk2⟩ : ∃ k, effectiveK (D0.length + 1) nc thr = .ok k ∧ k ≤ D0.length + 1 ∧
